@@ -23,6 +23,13 @@ def make_base(ctx, index=None):
     for k, t in enumerate((t0, t1, t2)):
         v = min(k, 1)
         t["c"][".0first"] = {"k": "f", "data": (b"first-v%d" % v).hex(), "mode": 0o644, "mtime": 10**18 + 100 * v}
+    # a file whose path sorts after every other and that exists in the first version only: if a later version were ever read as incomplete
+    # (its tail not taken as closing it), stitching would bring this file back
+    last = "\U0010fffd"          # sorts after every other name; path order puts deeper directories after shallower ones
+    t0["c"][last] = {"k": "d", "mode": 0o755, "mtime": 10**18, "c": {"sub": {"k": "d", "mode": 0o755, "mtime": 10**18, "c": {
+        "last": {"k": "f", "data": "6c617374", "mode": 0o644, "mtime": 10**18 + 7}}}}}
+    t1["c"].pop(last, None)
+    t2["c"].pop(last, None)
     o = [scen.small_opts(ctx.rng) for _ in range(3)]
     if ctx.rng.random() < 0.6:
         for x in o:
